@@ -24,45 +24,54 @@ def do_import():
         print("imported", name)
 
 
-def fresh():
-    if os.path.exists(SCRATCH):
-        shutil.rmtree(SCRATCH)
-    os.makedirs(SCRATCH)
+def fresh(scratch):
+    if os.path.exists(scratch):
+        shutil.rmtree(scratch)
+    os.makedirs(scratch)
     for f in ("Cargo.toml", "Cargo.lock", "build.rs"):
-        shutil.copy(os.path.join("/repo", f), SCRATCH)
-    shutil.copytree("/repo/src", os.path.join(SCRATCH, "src"))
+        shutil.copy(os.path.join("/repo", f), scratch)
+    shutil.copytree("/repo/src", os.path.join(scratch, "src"))
+
+
+def one(args):
+    d, reg = args
+    import multiprocessing
+    w = multiprocessing.current_process().name.replace("ForkPoolWorker-", "w")
+    scratch = f"/tmp/vrf_{w}_repo"
+    env = dict(os.environ, VERIF_REPO=scratch, VERIF_OUT_DIR=f"/tmp/vrf_{w}_out", VERIF_WORK_DIR=f"/tmp/vrf_{w}_work", VERIF_CACHE_DIR=f"/tmp/vrf_{w}_cache")
+    name = os.path.basename(d)
+    fresh(scratch)
+    a = subprocess.run(["patch", "-p1", "-s", "-d", scratch, "-i", os.path.join(d, "patch.diff")], stdout=subprocess.PIPE, stderr=subprocess.STDOUT, text=True)
+    if a.returncode != 0:
+        print(f"{name}: patch does not apply", flush=True)
+        return name, {"error": "patch does not apply"}
+    alarms = {}
+    for p in reg:
+        r = subprocess.run([os.path.join(V, "check"), p], env=env, stdout=subprocess.PIPE, stderr=subprocess.STDOUT, text=True, cwd=V)
+        if r.returncode != 0:
+            alarms[p] = [l.strip()[:260] for l in r.stdout.splitlines() if l.startswith("  rule=")] or [f"rc={r.returncode}: " + r.stdout[-200:]]
+    print(f"{name:14s} " + ("silent" if not alarms else "ALARM " + "; ".join(f"{p}[{len(k)}] {k[0][:150]}" for p, k in alarms.items())), flush=True)
+    shutil.rmtree(scratch, ignore_errors=True)
+    return name, {"alarms": alarms}
 
 
 def main():
     if len(sys.argv) < 2 or sys.argv[1] == "import":
         return do_import()
-    pat = sys.argv[2] if len(sys.argv) > 2 else ""
+    import multiprocessing
+    args = [a for a in sys.argv[2:] if not a.startswith("--")]
+    jobs = next((int(a.split("=")[1]) for a in sys.argv if a.startswith("--jobs=")), 4)
+    pat = args[0] if args else ""
     reg = [c["property_id"] for c in json.load(open(os.path.join(V, "MANIFEST.json")))["checks"]]
-    env = dict(os.environ, VERIF_REPO=SCRATCH, VERIF_OUT_DIR="/tmp/vrf_out", VERIF_WORK_DIR="/tmp/vrf_work", VERIF_CACHE_DIR="/tmp/vrf_cache")
-    results = {}
     rp = os.path.join(V, "selftest", "refac_results.json")
-    if os.path.exists(rp):
-        results = json.load(open(rp))
-    for d in sorted(glob.glob(os.path.join(DST, "*"))):
-        name = os.path.basename(d)
-        if pat and pat not in name:
-            continue
-        fresh()
-        a = subprocess.run(["patch", "-p1", "-s", "-d", SCRATCH, "-i", os.path.join(d, "patch.diff")], stdout=subprocess.PIPE, stderr=subprocess.STDOUT, text=True)
-        if a.returncode != 0:
-            print(f"{name}: patch does not apply")
-            results[name] = {"error": "patch does not apply"}
-            continue
-        alarms = {}
-        for p in reg:
-            r = subprocess.run([os.path.join(V, "check"), p], env=env, stdout=subprocess.PIPE, stderr=subprocess.STDOUT, text=True, cwd=V)
-            if r.returncode != 0:
-                alarms[p] = [l.strip()[:260] for l in r.stdout.splitlines() if l.startswith("  rule=")] or [f"rc={r.returncode}: " + r.stdout[-200:]]
-        results[name] = {"alarms": alarms}
-        print(f"{name:14s} " + ("silent" if not alarms else "ALARM " + "; ".join(f"{p}[{len(k)}] {k[0][:150]}" for p, k in alarms.items())))
-        json.dump(results, open(rp, "w"), indent=1, sort_keys=True)
-    if os.path.exists(SCRATCH):
-        shutil.rmtree(SCRATCH)
+    results = json.load(open(rp)) if os.path.exists(rp) else {}
+    todo = [(d, reg) for d in sorted(glob.glob(os.path.join(DST, "*"))) if not pat or pat in os.path.basename(d)]
+    with multiprocessing.Pool(jobs) as pool:
+        for name, r in pool.imap_unordered(one, todo):
+            results[name] = r
+            json.dump(results, open(rp, "w"), indent=1, sort_keys=True)
+    n_alarm = sum(1 for r in results.values() if r.get("alarms"))
+    print(f"{len(results)} refactorings, {n_alarm} with an alarm")
 
 
 if __name__ == "__main__":
